@@ -395,13 +395,13 @@ Definition is_cooler_obj (x : obj) : bool :=
   | None => false
   end.
 (** fileops.is_cooler after the D5 and D25 repairs:  not is_hdf5 -> False;  grouppath not in f -> False
-    (the membership test itself can raise);  f[grouppath] raising KeyError/RuntimeError -> False;
+    f[grouppath] or the membership test raising KeyError/RuntimeError -> False;
     else _is_cooler(f[grouppath]) *)
 Definition is_cooler (w : world) (f : fid) (p : path) : tri :=
   if negb (file_exists w f) then TFalse
   else match contains w f p with
        | TFalse => TFalse
-       | TRaise e => TRaise e
+       | TRaise _ => TFalse
        | TTrue =>
            match resolve w f p with
            | Found f1 o => match obj_at w f1 o with
